@@ -130,7 +130,7 @@ class RegionGeom:
             + 0.5 * b * u4
         )
 
-        psi = np.arccos(r / np.sqrt(-(q**3)))
+        psi = np.arccos(np.clip(r / np.sqrt(-(q**3)), -1.0, 1.0))
         v1 = 2 * np.sqrt(-q) * np.cos(psi / 3)
         v2 = 2 * np.sqrt(-q) * np.cos((psi + 2 * np.pi) / 3)
         v3 = 2 * np.sqrt(-q) * np.cos((psi + 4 * np.pi) / 3)
@@ -150,6 +150,18 @@ class RegionGeom:
         s = np.cbrt(r[~dmsk] + np.sqrt(dscr[~dmsk]))
         t = np.cbrt(r[~dmsk] - np.sqrt(dscr[~dmsk]))
         self.losPathLen[~dmsk] = s + t
+
+        # For u4 in [0, 1] the three roots are real and the one inside
+        # [minLOSpathLen, maxLOSpathLen] is v3. Rounding at the faces of the u4 range
+        # can turn the discriminant positive (horizon, u4 -> 0) or push v3 a few ulps
+        # outside the range so that no root is selected above: use v3, clipped.
+        unset = ~dmsk | ~(
+            (self.losPathLen >= self.minLOSpathLen)
+            & (self.losPathLen <= self.maxLOSpathLen)
+        )
+        self.losPathLen[unset] = np.clip(
+            v3[unset], self.minLOSpathLen, self.maxLOSpathLen
+        )
 
         # self.losPathLen[~dmsk] = np.sum(
         #     np.cbrt(r[~dmsk] + np.multiply.outer([1, -1], np.sqrt(dscr[~dmsk]))),
